@@ -1,12 +1,15 @@
 package main
 
 import (
+	"context"
 	"encoding/json"
 	"fmt"
 	"os"
+	"os/exec"
 	"path/filepath"
 	"reflect"
 	"strings"
+	"time"
 
 	chart "helm.sh/helm/v4/pkg/chart/v2"
 	"helm.sh/helm/v4/pkg/chart/v2/loader"
@@ -154,7 +157,7 @@ func chartValuesSnapshot(c *chart.Chart) any {
 func corrValues(seed uint64, n int, tier string, out string, replay string) {
 	m := StartModel()
 	defer m.Close()
-	rep := NewReport("C04", "values", seed, "case = (a) two random trees (depth<=5, keys from a 6-letter alphabet so paths collide; nulls, empty maps, lists, scalars of every JSON kind) through MergeMaps / CoalesceTables / MergeTables, (b) a chart tree (<=3 subchart levels, globals, subchart sections) with user values through CoalesceValues / MergeValues, (c) value-flag mixtures through Options.MergeValues (files on disk); results compared with the model as canonical JSON and inputs snapshotted before/after for non-mutation; non-trivial = some key path collides between the sources; distinct = hash of the inputs")
+	rep := NewReport("C04", "values", seed, "case = (a) two random trees (depth<=5, keys from a 6-letter alphabet so paths collide; nulls, empty maps, lists, scalars of every JSON kind) through MergeMaps / CoalesceTables / MergeTables, (b) a chart tree (<=3 subchart levels, globals, subchart sections) with user values through CoalesceValues / MergeValues, (c) value-flag mixtures through Options.MergeValues (files on disk), and for every fortieth of them the same sources as flags of the real `helm template` command line in a child process (what the probe template sees as .Values vs the library calls); results compared with the model as canonical JSON and inputs snapshotted before/after for non-mutation; non-trivial = some key path collides between the sources; distinct = hash of the inputs")
 	tmp, _ := os.MkdirTemp("", "corr-values")
 	defer os.RemoveAll(tmp)
 	for i := 0; i < n; i++ {
@@ -690,6 +693,76 @@ func valuesCaseFlags(m *Model, rep *Report, r *Rng, seed uint64, idx int, tmp st
 	rep.H(fmt.Sprintf("flags-ok:families=%d", families))
 	if w, ok := want["ok"]; !ok || !jsonEqual(got, w) {
 		rep.Issue(Issue{Kind: "disagreement", Fingerprint: "C04:mergeValues", What: "Options.MergeValues differs from model (precedence of value flags)", Case: cs, Model: want, Impl: got, Seed: seed, Index: idx})
+		return
+	}
+	// the command line: the same sources as flags of the real `helm template` (child process); what a template
+	// sees as .Values must be what the library calls above give (the flag-to-option wiring of pkg/cmd)
+	if idx%40 == 0 {
+		valuesCLI(rep, &opts, jsons, files, got, cs, tmp, seed, idx)
+	}
+}
+
+func valuesCLI(rep *Report, opts *values.Options, jsons, files []any, merged map[string]any, cs map[string]any, tmp string, seed uint64, idx int) {
+	dir := filepath.Join(tmp, fmt.Sprintf("cli-%d", idx))
+	chartDir := filepath.Join(dir, "probe")
+	os.MkdirAll(filepath.Join(chartDir, "templates"), 0o755)
+	defer os.RemoveAll(dir)
+	os.WriteFile(filepath.Join(chartDir, "Chart.yaml"), []byte("apiVersion: v2\nname: probe\nversion: 0.1.0\n"), 0o644)
+	os.WriteFile(filepath.Join(chartDir, "templates", "probe.yaml"), []byte("probe: |\n  {{ toJson .Values }}\n"), 0o644)
+	args := []string{"template", "rel", chartDir}
+	for i, f := range files { // the value files were removed after the library call: write them again
+		b, _ := json.Marshal(f)
+		p := filepath.Join(dir, fmt.Sprintf("v-%d.yaml", i))
+		os.WriteFile(p, b, 0o644)
+		args = append(args, "-f", p)
+	}
+	for _, j := range opts.JSONValues {
+		args = append(args, "--set-json", j)
+	}
+	for _, e := range opts.Values {
+		args = append(args, "--set", e)
+	}
+	for _, e := range opts.StringValues {
+		args = append(args, "--set-string", e)
+	}
+	for _, e := range opts.FileValues {
+		args = append(args, "--set-file", e)
+	}
+	for _, e := range opts.LiteralValues {
+		args = append(args, "--set-literal", e)
+	}
+	// expected: the library path on the merged values
+	ch := &chart.Chart{Metadata: &chart.Metadata{APIVersion: "v2", Name: "probe", Version: "0.1.0"}}
+	rv, err := chartutil.ToRenderValues(ch, deepCopyMap(merged), chartutil.ReleaseOptions{Name: "rel", Namespace: "default"}, nil)
+	if err != nil {
+		rep.H("cli:skip")
+		return
+	}
+	self, _ := os.Executable()
+	ab, _ := json.Marshal(args)
+	ctx, cancel := context.WithTimeout(context.Background(), 60*time.Second)
+	defer cancel()
+	cmd := exec.CommandContext(ctx, self, "helmcli")
+	home := filepath.Join(dir, "home")
+	os.MkdirAll(home, 0o755)
+	cmd.Env = []string{"PATH=" + os.Getenv("PATH"), "HOME=" + home, "KUBECONFIG=" + filepath.Join(home, "none"), "HELM_NAMESPACE=default", "HELM_CACHE_HOME=" + filepath.Join(home, "cache"),
+		"HELM_CONFIG_HOME=" + filepath.Join(home, "config"), "HELM_DATA_HOME=" + filepath.Join(home, "data"), "CORR_HELM_ARGS=" + string(ab), "CORR_HELM_STDOUT=1"}
+	ob, _ := cmd.CombinedOutput()
+	outp := string(ob)
+	rep.H("cli:run")
+	i := strings.Index(outp, "probe: |\n")
+	if i < 0 {
+		rep.Issue(Issue{Kind: "monitor", Fingerprint: "C04:cli:no-output", What: "helm template with the value flags printed no probe document: " + trunc(outp, 300), Case: cs, Impl: args, Seed: seed, Index: idx})
+		return
+	}
+	line := strings.TrimSpace(strings.SplitN(outp[i+len("probe: |\n"):], "\n", 2)[0])
+	var seen any
+	if err := json.Unmarshal([]byte(line), &seen); err != nil {
+		rep.Issue(Issue{Kind: "monitor", Fingerprint: "C04:cli:no-output", What: "probe line is not JSON: " + trunc(line, 200), Case: cs, Impl: args, Seed: seed, Index: idx})
+		return
+	}
+	if !jsonEqual(seen, map[string]any(rv["Values"].(chartutil.Values))) {
+		rep.Issue(Issue{Kind: "monitor", Fingerprint: "C04:cli:values-differ", What: "the values a template sees under `helm template` with these flags differ from Options.MergeValues + ToRenderValues on the same sources", Case: cs, Model: rv["Values"], Impl: seen, Seed: seed, Index: idx})
 	}
 }
 
